@@ -92,6 +92,10 @@ func (bs *blockState) setReg(v ssa.Value, val Val) {
 		}
 		n := e.fresh(v.Name()+suffix, flatten(val.T)[i])
 		e.def(eq(n, c))
+		if e.alias == nil {
+			e.alias = map[string]string{}
+		}
+		e.alias[n] = c
 		out.C = append(out.C, n)
 	}
 	e.regs[v] = out
@@ -633,15 +637,12 @@ func (bs *blockState) strEqual(a, b Val, ins ssa.Instruction) string {
 
 func (bs *blockState) concat(a, b Val, ins ssa.Instruction) Val {
 	e := bs.e
-	arr := e.fresh("cat", SArr)
 	n := add(a.C[2], b.C[2])
 	// the runtime refuses over-long strings; memory exhaustion is outside the model (DESIGN 2.1)
 	bs.assumeG(app("<=", n, "maxcap"))
-	q := e.freshName("k")
-	// one definition by absolute index of the new array, directed new -> old
-	e.def(fmt.Sprintf("(forall ((%s Int)) (! (=> (and (<= 0 %s) (< %s %s)) (= (select %s %s) (ite (< %s %s) (select %s (+ %s %s)) (select %s (+ %s (- %s %s)))))) :pattern ((select %s %s))))",
-		q, q, q, n, arr, q, q, a.C[2], a.C[0], a.C[1], q, b.C[0], b.C[1], q, a.C[2], arr, q))
-	return Val{a.T, []string{arr, "0", n}}
+	// one definition by absolute index of the new array, directed new -> old (shared with contract expressions)
+	v := e.concatSpec(a, b)
+	return Val{a.T, v.C}
 }
 
 func (bs *blockState) lookup(x *ssa.Lookup) {
